@@ -116,6 +116,11 @@ Theorem C18_K3_unload_during_write_refuted_without_guard :
     In (ERet 0 0 (RExn EAssert)) (g_hist s).
 Proof. exact k3. Qed.
 
+(* PandasDataFrameCache.update (not in the model; run under the scheduler by the harness): the translator recognises
+   its shape and the retry is evaluated after the per-file lock is released (repair b7a511d of finding K4). *)
+Example C18_df_cache_shape : df_shape_ok = true /\ df_retry_outside_flock = true.
+Proof. split; reflexivity. Qed.
+
 (* Non-vacuity: the universes have the stated sizes, contain the witness configurations, contain
    non-racy configurations, and a concrete concurrent history is accepted / a torn one rejected. *)
 Example C18_universe_sizes :
